@@ -180,7 +180,7 @@ func runCaseWatched(d *Def, c *Case) Res {
 }
 
 func emptyRes(cfg *Cfg) Res {
-	r := Res{Err: emptyErr(), DReq: emptyErr(), Rest: []Tok{}, RestNil: true, Warn: []Tok{}, Ran: []RanRes{}, Comps: []Tok{}, Exits: []int{}, Help: emptyDoc()}
+	r := Res{Err: emptyErr(), DReq: emptyErr(), Rest: []Tok{}, RestNil: true, Warn: []Tok{}, Ran: []RanRes{}, Comps: []Tok{}, Exits: []int{}, Help: emptyDoc(), SetErrs: []string{}}
 	r.Vals = make([]interface{}, len(cfg.Opts))
 	r.Called = make([]bool, len(cfg.Opts))
 	r.As = make([]Tok, len(cfg.Opts))
@@ -349,6 +349,8 @@ func sameValue(kind string, a, b interface{}) bool {
 
 func (b *Built) observeOpts(res *Res, raw *strings.Builder) {
 	cfg := b.Cfg
+	res.SetErrs = append([]string{}, b.SetErrs...)
+	fmt.Fprintf(raw, "seterrs=%q|", res.SetErrs)
 	for i, o := range cfg.Opts {
 		v := b.PtrValue(i)
 		res.Vals[i] = NormVal(o.Kind, v)
